@@ -942,6 +942,14 @@ def mbi_op(rng, slot):
     b = bytearray(rbytes(rng, n))
     if slot == "efimmap" and b[:4] == b"\0\0\0\0":
         b[0] = 40
+    if slot == "mmap" and n and rng.random() < 0.5:
+        # memory areas as firmware reports them: conventional bases (0, 1 MiB, 16 MiB, 4 GiB), contiguous neighbours, the
+        # specified types 1..5 - contents a builder must carry through like any other bytes
+        base = rng.choice([0, 0, 0x100000, 0x1000000, 1 << 32])
+        for i in range(n // 24):
+            ln = rng.choice([0x9FC00, 0x1000, 0x7EE0000, rng.getrandbits(20) << 12])
+            b[24 * i:24 * i + 24] = struct.pack("<QQII", base, ln, rng.choice([1, 1, 2, 3, 4, 5]), 0)
+            base = rng.choice([base + ln, 0x100000, base + ln + 0x1000])
     if slot == "vbe":
         b = bytearray(b"\0" * 776)
         b[0:8] = rbytes(rng, 8)
@@ -1163,6 +1171,7 @@ class C08(PropDef):
         cases += PROPS["C13"].gen(tier, rng)[:: (8 if q else 1)]
         cases += [c for c in PROPS["C15"].gen(tier, rng) if c.startswith("CAST")][:: (5 if q else 1)]
         cases += ["FBT %d" % b for b in range(256)]
+        cases += _mbi.gen_scale(rng)           # large structures: counts, lengths, MANY tags (stack / work per tag)
         # arithmetic overflow points
         m = _mbi
         cases.append(m.sweep(m.mbi([m.tag(3, u32(10) + u32(5) + b"m\0")])))
